@@ -105,6 +105,15 @@ Theorem C04_wrapper_under_best_match_refuted :
 Proof. exact wrapper_under_best_match_refuted. Qed.
 Print Assumptions C04_wrapper_under_best_match_refuted.
 
+(* 6. no type marker: the class is guessed from keys and values, a sibling with stricter types wins *)
+Theorem C04_best_match_guess_refuted :
+  is_typed (w_best_match_guess_u, w_best_match_guess_k) = true
+  /\ clauses_failing (w_best_match_guess_u, w_best_match_guess_k) = [3]
+  /\ decode_ambiguous (w_best_match_guess_u, w_best_match_guess_k) = false
+  /\ model_roundtrip (w_best_match_guess_u, w_best_match_guess_k) = false.
+Proof. exact best_match_guess_refuted. Qed.
+Print Assumptions C04_best_match_guess_refuted.
+
 (* 7. the None-filtering factory strips keys of the generic AnyElement dictionary *)
 Theorem C04_generic_keys_filtered_refuted :
   is_typed (w_generic_keys_filtered_u, w_generic_keys_filtered_k) = true
